@@ -26,7 +26,7 @@ def gen_dary(rng, nops):
     d = 1 + rng.below(8); rv = rng.below(2)
     r = rng.below(100)
     if r < 8: rv = 2; d = 2                 # default template arguments: Arity 2, std::less (priority = key), alias d_ary_heap
-    elif r < 18: rv = 3; d = 2 + rng.below(2)   # heap-owning key type (moved-from elements become visible)
+    elif r < 22: rv = 3 + rng.below(4); d = 2 + rng.below(2)   # heap-owning keys; min/max order x moved-from ranks +inf/-inf
     nk = rng.choice([3, 6, 12, 40]); pmax = rng.choice([2, 5, 12, 40])
     mode = rng.below(4)      # 0 mixed, 1 fill then drain, 2 build/update_all heavy, 3 push/pop alternating near empty
     ops = []; size = 0; dirty = False
@@ -146,8 +146,8 @@ def gen_radix(rng, nops):
     while len(ops) < nops:
         if rng.chance(1, 30): ops.append(rng.choice(["Y", "Z"])); continue          # copy / move round trips
         name = pick(rng, [("P", 45), ("T", 14), ("O", 22), ("W", 6 if mode != 4 else 20), ("K", 10), ("C", 2)])
-        if name == "P": name = rng.choice(["P", "E", "F", "H", "G"])   # push / emplace / emplace_keyfirst / *_bucket variants
-        if name in ("P", "E", "F", "H", "G"):
+        if name == "P": name = rng.choice(["P", "E", "F", "H", "G", "V", "U"])   # push / emplace / emplace_keyfirst / *_bucket variants
+        if name in ("P", "E", "F", "H", "G", "V", "U"):
             k = key()
             if k < frontier or k > hi: continue
             ops.append("%s,%x,%d" % (name, k & ((1 << w) - 1), rng.below(50))); cont.append(k)
